@@ -567,11 +567,11 @@ func (g *FuncGen) evalCall(n *Node, env *Env) (Val, error) {
 			return Val{parts[0], tBool}, nil
 		}
 		return Val{"(and " + strings.Join(parts, " ") + ")", tBool}, nil
-	case "concat", "contains", "hasprefix", "hassuffix", "indexof", "toint", "fromint", "isdigits", "substr", "inre", "replaceall":
+	case "s_concat", "s_contains", "s_hasprefix", "s_hassuffix", "s_indexof", "s_toint", "s_fromint", "s_isdigits", "s_substr", "s_inre", "s_replaceall":
 		if !g.w.useStrings {
 			return Val{}, fmt.Errorf("%s needs the string theory (add `strings` to the contract)", n.Name)
 		}
-		if n.Name == "inre" {
+		if n.Name == "s_inre" {
 			// inre(s, "<SMT-LIB regular expression>")
 			if len(n.Kids) != 2 || n.Kids[1].Kind != "str" {
 				return Val{}, fmt.Errorf("inre(s, \"<smt regex>\")")
@@ -586,30 +586,30 @@ func (g *FuncGen) evalCall(n *Node, env *Env) (Val, error) {
 		if err != nil {
 			return Val{}, err
 		}
-		need := map[string]int{"concat": 2, "contains": 2, "hasprefix": 2, "hassuffix": 2, "indexof": 2, "toint": 1, "fromint": 1, "isdigits": 1, "substr": 3, "replaceall": 3}[n.Name]
+		need := map[string]int{"s_concat": 2, "s_contains": 2, "s_hasprefix": 2, "s_hassuffix": 2, "s_indexof": 2, "s_toint": 1, "s_fromint": 1, "s_isdigits": 1, "s_substr": 3, "s_replaceall": 3}[n.Name]
 		if len(a) != need {
 			return Val{}, fmt.Errorf("%s takes %d arguments", n.Name, need)
 		}
 		switch n.Name {
-		case "concat":
+		case "s_concat":
 			return Val{fmt.Sprintf("(str.++ %s %s)", a[0].Term, a[1].Term), tStr}, nil
-		case "contains":
+		case "s_contains":
 			return Val{fmt.Sprintf("(str.contains %s %s)", a[0].Term, a[1].Term), tBool}, nil
-		case "hasprefix":
+		case "s_hasprefix":
 			return Val{fmt.Sprintf("(str.prefixof %s %s)", a[1].Term, a[0].Term), tBool}, nil
-		case "hassuffix":
+		case "s_hassuffix":
 			return Val{fmt.Sprintf("(str.suffixof %s %s)", a[1].Term, a[0].Term), tBool}, nil
-		case "indexof":
+		case "s_indexof":
 			return Val{fmt.Sprintf("(str.indexof %s %s 0)", a[0].Term, a[1].Term), tInt}, nil
-		case "toint":
+		case "s_toint":
 			return Val{fmt.Sprintf("(str.to_int %s)", a[0].Term), tInt}, nil
-		case "fromint":
+		case "s_fromint":
 			return Val{fmt.Sprintf("(str.from_int %s)", a[0].Term), tStr}, nil
-		case "isdigits":
+		case "s_isdigits":
 			return Val{fmt.Sprintf("(str.in_re %s (re.+ (re.range \"0\" \"9\")))", a[0].Term), tBool}, nil
-		case "substr": // substr(s, lo, hi) = s[lo:hi]
+		case "s_substr": // s_substr(s, lo, hi) = s[lo:hi]
 			return Val{fmt.Sprintf("(str.substr %s %s (- %s %s))", a[0].Term, a[1].Term, a[2].Term, a[1].Term), tStr}, nil
-		case "replaceall":
+		case "s_replaceall":
 			return Val{fmt.Sprintf("(str.replace_all %s %s %s)", a[0].Term, a[1].Term, a[2].Term), tStr}, nil
 		}
 	case "unboxed": // unboxed(ifaceValue, Type): the payload of an interface value as a T
